@@ -142,7 +142,7 @@ def plot_burst_detect_summary(df_features, sig, fs, threshold_kwargs, xlim=None,
             last_cyc = int(cyc['sample_last_' + side_e]) - int(fs * start)
             next_cyc = int(cyc['sample_next_' + side_e]) - int(fs * start)
             if cyc[column] < threshold_kwargs[osc_key] and last_cyc > 0:
-                axes[0].axvspan(times[last_cyc], times[next_cyc],
+                axes[0].axvspan(times[last_cyc], times[min(next_cyc, len(times) - 1)],
                  alpha=0.5, color=color, lw=0)
 
         # Plot each burst param on separate axes
